@@ -225,6 +225,27 @@ theorem submit_core_K (s : St) (p : Producer) (h : K s) :
   dsimp only at *
   split_getting <;> cases pc <;> simp only [reduceCtorEq, ↓reduceIte] <;> close_k'
 
+set_option maxHeartbeats 32000000 in
+theorem fput_core_K (s : St) (p : Producer) (h : K s) :
+    K (let s := { s with unfinished := s.unfinished + 1, submitted := s.submitted ++ pitems p }
+       if s.pc = Pc.idle then { s with queue := s.queue ++ [p] }
+       else match s.getting with
+         | some g =>
+           if g.state = GState.pending then
+             { s with getting := some { g with state := .got, captured := p },
+                      pc := if s.pc = Pc.awaitget then Pc.decide else s.pc }
+           else { s with queue := s.queue ++ [p] }
+         | none => { s with queue := s.queue ++ [p] }) := by
+  destruct_st s
+  obtain ⟨h1, h2, h3, h4, h5, h6, h7, h8, h9, h10, h11, h12, h13, h14, h15, h16, h17, h18, h19, h20, h21⟩ := h
+  dsimp only at *
+  split_getting <;> cases pc <;> simp only [reduceCtorEq, ↓reduceIte] <;> close_k'
+
+theorem fclear_K (s : St) (h : K s) : K { s with event := false } :=
+  ⟨h.alive, h.conserve, h.only, h.gensIter, h.pendPc, h.capDone, h.capLoad, h.quietPc, h.iterNotPending, h.unfin,
+   (fun he => by cases he), (fun _ => rfl), h.flagOk, h.joinOk, h.retOk, h.idleInputs, h.outsDeliv, h.outsCur,
+   h.outsWaits, h.serialOk, h.startsOk⟩
+
 theorem wait_core_K (s : St) (w : Waiter) (h : K s) (hb : w.before ≤ s.submitted.length) :
     K (if s.unfinished = 0 then passJoin s w else { s with joiners := s.joiners ++ [w] }) := by
   split
@@ -249,6 +270,8 @@ theorem applyIn_K (s : St) (i : In) (h : K s) (hi : i.isShutdown = false) : K (a
   | submit t p => exact submit_core_K s1 p ha
   | wait t id cancel => exact wait_core_K s1 _ ha (Nat.le_refl _)
   | shutdown t => cases hi
+  | fclear t => exact fclear_K s1 ha
+  | fput t p => exact fput_core_K s1 p ha
 
 theorem foldl_applyIn_K : ∀ (ins : List In) (s : St), K s → (∀ i ∈ ins, i.isShutdown = false) →
     K (ins.foldl applyIn s) := by
